@@ -58,6 +58,15 @@ impl Check for C06 {
 }
 
 /// an out-of-range finite query with its class
+/// largest finite value of T
+fn tmax<T: Flt>() -> f64 {
+    if T::MANT == 53 {
+        f64::MAX
+    } else {
+        f32::MAX as f64
+    }
+}
+
 pub fn outside<T: Flt>(src: &mut Src, x: &[f64]) -> (f64, &'static str) {
     let n = x.len();
     let (lo, hi) = (T::of(x[0]), T::of(x[n - 1]));
@@ -181,6 +190,13 @@ fn run1<T: Flt>(src: &mut Src, obs: &mut Obs) -> Result<(), Fail> {
                         (want, super::c03::norm1(&w, &[a_in; 4]) + k_const::<T>() * T::U * sigma * growth(t))
                     }
                 };
+                // the premise of "up to rounding": no intermediate of the evaluation leaves the float range. tol / u is (a multiple
+                // of) the size of the largest term; where that is within 2^-8 of the largest finite number the comparison is skipped
+                // and counted (far extrapolation of steep end pieces, f32 mostly)
+                if !(tol / T::U).is_finite() || tol / T::U > tmax::<T>() / 256.0 {
+                    obs.count("far_queries_skipped_result_or_intermediate_out_of_range", 1);
+                    continue;
+                }
                 let (ok, ne) = within(got, &want, tol + T::TINY);
                 obs.asserts += 1;
                 obs.err_l(&format!("outside:{}:{}", if is_spline { "spline" } else { "linear" }, T::NAME), ne);
@@ -270,6 +286,10 @@ fn run2<T: Flt>(src: &mut Src, obs: &mut Obs) -> Result<(), Fail> {
             let tol = ULPS2 * 2.0 * T::U * m * ((1.0 - s).abs() + s.abs()) * ((1.0 - t).abs() + t.abs());
             let want = exact_bilinear((g.x[i], g.x[i + 1]), (g.y[j], g.y[j + 1]), z, (qx, qy));
             let got = ra[k][l].f();
+            if !(tol / T::U).is_finite() || tol / T::U > tmax::<T>() / 256.0 {
+                obs.count("far_queries_skipped_result_or_intermediate_out_of_range", 1);
+                continue;
+            }
             let (ok, ne) = within(got, &want, tol + T::TINY);
             obs.asserts += 1;
             obs.err_l(&format!("outside:bilinear:{}", T::NAME), ne);
